@@ -6,7 +6,7 @@ use crate::{
     VecErr,
 };
 
-use crate::ast::{map_err_messages, Assignment};
+use crate::ast::{map_err_messages, new_err, Assignment};
 
 impl Parser {
     pub fn assignment_no_type(
@@ -56,6 +56,21 @@ impl Parser {
             || vec!["Could not infer the type of the value; try explicitly defining a type"],
         )
         .to_err_vec()?;
+
+        // `e = []` says nothing about the elements: the empty fixed-shape list is accepted wherever any
+        // list is wanted, so one variable of that type could be handed to a `[str...]` and to an `[int...]`
+        // parameter and carry strings into code that was checked for ints. A new variable needs a type.
+        if did_exist_before.is_none() {
+            if let Ok(ty) = ident.ty() {
+                if ty.has_list_without_element_type() {
+                    return Err(vec![new_err(
+                        input.as_span(),
+                        &input.user_data().get_source_file_name(),
+                        format!("the element type of `{ty}` cannot be inferred here; declare it, e.g. `{}: [int...] = []`", ident.name()),
+                    )]);
+                }
+            }
+        }
 
         Ok((Assignment::new(ident, value), did_exist_before))
     }
